@@ -46,6 +46,15 @@ CHECKS = {
         "Trusts the 12-line struct_eq; md5 collisions are ignored; one child process per worker samples process independence.",
         "DESIGN.md section 4, C20",
     ),
+    "C16": (
+        "Hypothesis-generated operation histories (model-based / stateful) over a stream forest and a QMetaData-free twin "
+        "forest; oracle = per-stream dict model checked as an invariant after every step + dump/hash differential against the twin",
+        "Model-based testing over generated histories of QMetaData/derive/branch/execute operations: after every step the lookup "
+        "of every pool key on every stream created so far must equal a dict model (parent's dict updated by own call), and "
+        "every stream's dump/hash and every AST handed to an executor must equal those of the twin chain built without QMetaData.",
+        "Values compared with ==; executors are stepped synchronously through value_async; histories up to 30 steps, 2 datasets.",
+        "DESIGN.md section 4, C16",
+    ),
 }
 
 NOT_YET = "check not built yet in this round (work in progress; see DESIGN.md section 4 for the planned generator/oracle)"
